@@ -41,6 +41,7 @@ structure Node (F : Type) where
   blocks : List (Blk F)                      -- blocks known to the chain (`mc.GetBlock`)
   store : List (Nat × Ticket F)              -- the round's verified tickets (`r.verificationTickets`, keyed by signature)
   roundNotarized : List Nat                  -- the round's notarized blocks
+  complete : Bool                            -- the round's phase is past verification (`IsVerificationComplete`)
 
 def Node.block? (nd : Node F) (id : Nat) : Option (Blk F) := nd.blocks.find? (·.id == id)
 
@@ -119,7 +120,7 @@ def Node.addNotarizedToRound (nd : Node F) (id : Nat) : Node F :=
     else
       let others := nd.roundNotarized.filter (fun j => ((nd.block? j).map (·.gen)) != some b.gen)
       let nd1 := nd.setBlock { b with notarized := true }
-      { nd1 with roundNotarized := others ++ [id] }
+      { nd1 with roundNotarized := others ++ [id], complete := true }
 
 /-- `checkBlockNotarization`: only a block whose flag is set is added to the round. -/
 def Node.noteNotarized (nd : Node F) (b : Blk F) : Node F :=
@@ -127,8 +128,10 @@ def Node.noteNotarized (nd : Node F) (b : Blk F) : Node F :=
 
 /-- `processVerifyBlock` for a received proposal `b` (carrying whatever tickets the sender attached): the round's
 collected tickets are merged into it, **its own tickets are not verified**, and the count decides. Either way the object
-reaches `Chain.addBlock` (directly when it counts as notarized, through `AddToRoundVerification` otherwise). -/
+reaches `Chain.addBlock` (directly when it counts as notarized, through `AddToRoundVerification` otherwise). Once a block
+of the round was notarized (`round.AddNotarizedBlock` moves the phase to `Share`) further proposals are ignored. -/
 def processVerifyBlock (nd : Node F) (b : Blk F) : Node F :=
+  if nd.complete then nd else   -- "received block for round with finished verification phase"
   let b1 := { b with tickets := mergeTickets b.tickets (nd.storeFor b.id) }
   let b2 := updateNotarization nd b1
   let (nd1, cb) := nd.addBlock b2
